@@ -22,7 +22,7 @@ ASSUMPTIONS = [
     "programs are compared by canonical text, fitness by value",
 ]
 PLAN = {
-    "quick": {"shards": 8, "shard_timeout": 500, "case_timeout": 120, "configs": 40, "envs": 4, "max_case_timeouts": 2},
+    "quick": {"shards": 8, "shard_timeout": 500, "case_timeout": 120, "configs": 64, "envs": 4, "max_case_timeouts": 2},
     "thorough": {"shards": 16, "shard_timeout": 3600, "case_timeout": 240, "configs": 1200, "envs": 6, "max_case_timeouts": 20},
 }
 THRESHOLDS = {
